@@ -460,6 +460,9 @@ func c09Cases(ts *tSchema, thorough bool) []c09Case {
 		for _, m := range []string{"/vs.T/Unary", "/vs.T/CS", "/vs.T/Bidi", "/vs.T/Upload"} {
 			out = append(out, c09Case{Entry: "grpc", Mux: "t", Verb: "POST", Path: m, BodyHex: hx(f), Headers: [][2]string{{"Content-Type", "application/grpc"}}})
 			out = append(out, c09Case{Entry: "grpc", Mux: "t", Verb: "POST", Path: m, BodyHex: hx(f), Headers: [][2]string{{"Content-Type", "application/grpc"}, {"Grpc-Encoding", "gzip"}}, MaxRead: 1})
+			out = append(out, c09Case{Entry: "grpc", Mux: "t", Verb: "POST", Path: m, BodyHex: hx(f), Headers: [][2]string{{"Content-Type", "application/grpc"}, {"Grpc-Encoding", "identity"}}})
+			out = append(out, c09Case{Entry: "http", Mux: "t", Verb: "POST", Path: m, BodyHex: hx(f), Headers: [][2]string{{"Content-Type", "application/grpc-web+proto"}, {"Grpc-Encoding", "identity"}}, CL: -2})
+			out = append(out, c09Case{Entry: "http", Mux: "t", Verb: "POST", Path: m, BodyHex: hx(f), Headers: [][2]string{{"Content-Type", "application/grpc-web+proto"}, {"Grpc-Encoding", "gzip"}}, CL: -2})
 			out = append(out, c09Case{Entry: "http", Mux: "t", Verb: "POST", Path: m, BodyHex: hx(f), Headers: [][2]string{{"Content-Type", "application/grpc-web+proto"}}, CL: -2})
 			out = append(out, c09Case{Entry: "http", Mux: "t", Verb: "POST", Path: m, BodyHex: hx(wire.EncodeWebText(f)), Headers: [][2]string{{"Content-Type", "application/grpc-web-text"}}, CL: -2})
 			out = append(out, c09Case{Entry: "http", Mux: "t", Verb: "POST", Path: m, BodyHex: hx(f), Headers: [][2]string{{"Content-Type", "application/grpc-web-text"}}, CL: -2})
